@@ -40,6 +40,11 @@ def run(ctx):
                                                                                "trace_prefix": lines[max(0, v.line - 3):v.line]})
             ctx.violation(v.bad, keep, "PartitionProp clause %s broken at trace line %d: %s" % (v.bad, v.line, ev[:600]))
         named[label] = nlines
+    # "is reported at most once per flush", end to end: the pipeline schedules of C01 (workers held in ReceiveMap / Flush / before Reset
+    # while the flusher ticks), judged on the clauses that are this property's
+    import c01
+    pn = c01.stage(ctx, [("sim9", 9, 4, 3, "num=%d" % (100 if ctx.tier == "quick" else 2000), 10)], clauses=("SameAggregator", "NoDupInFlush", "OncePerFlush"))
+    named["pipeline:tick-while-merge-held"] = pn.get("tick-while-merge-held", 0)
     ctx.cov["named_situations"] = named
     ctx.cov["exhaustive"] = True
     ctx.cov["rule"] = ("every sequence of <= MaxBatches non-empty subsets of the abstract key pool x shard counts 1..MaxN, plus "
